@@ -4,4 +4,5 @@ C08Cfgs == { [nsrv |-> 1, tries |-> 2, timeout |-> 1000, seed |-> 1, qcache |-> 
              [nsrv |-> 1, tries |-> 2, timeout |-> 1000, seed |-> 2, qcache |-> 10, dns0x20 |-> 1],
              [nsrv |-> 1, tries |-> 2, timeout |-> 1000, seed |-> 3, qcache |-> 0],
              [nsrv |-> 1, tries |-> 2, timeout |-> 1000, seed |-> 4, qcache |-> 3600, igntc |-> 1] }
+C08TypeCfgs == { [nsrv |-> 1, tries |-> 2, timeout |-> 1000, seed |-> 1, qcache |-> 3600] }
 =============================================================================
